@@ -161,7 +161,7 @@ def check_class(fx, R, cq):
     loc = fx.rel(g['loc'])
     l, u, r = sp.symbols('l u res', real=True)
     rp = sp.Symbol('res', positive=True)
-    env = {('.lower', 'extrimities'): l, ('.upper', 'extrimities'): u, 'this.cellResolution_': r, 'cellResolution': r}
+    env = {('.lower', 'extrimities'): l, ('.upper', 'extrimities'): u, ('.width', 'extrimities'): u - l, ('.center', 'extrimities'): (u + l) / 2, 'this.cellResolution_': r, 'cellResolution': r}
     st = stmts_sx(g)
     env.update(cast_targets(g['body']))
     for s_ in st:
